@@ -191,6 +191,10 @@ func (c *ChordStorage) List(ctx context.Context, prefix string, recursive bool) 
 			if key.GetType() != protocol.KeyComposite_SIMPLE {
 				continue
 			}
+			if !strings.HasPrefix(string(key.GetKey()), prefix) {
+				// not below prefix/: the key itself, or a sibling merely sharing the string prefix
+				continue
+			}
 			sub := strings.TrimPrefix(string(key.GetKey()), prefix)
 			before, _, ok := strings.Cut(sub, "/")
 
